@@ -29,7 +29,12 @@ ASSUMPTIONS = [
 # coordinates (reduction rank outermost, mixed-sign entries)
 EXPRS["matvec-m3"] = EXPRS["matvec"]
 EXPRS["colsum-n3"] = EXPRS["colsum"]
-WIDE = {"matvec-m3": {"m": 3, "k": 2}, "colsum-n3": {"m": 2, "n": 3}}
+# unequal extents with the longer rank BELOW the shorter one (a tiling of K splits at depth 1 of A[M,K])
+EXPRS["matvec-k3"] = EXPRS["matvec"]
+EXPRS["rowsum-k3"] = EXPRS["rowsum"]
+EXPRS["dot-k4"] = EXPRS["dot"]
+WIDE = {"matvec-m3": {"m": 3, "k": 2}, "colsum-n3": {"m": 2, "n": 3}, "matvec-k3": {"m": 2, "k": 3},
+        "rowsum-k3": {"m": 2, "k": 3}, "dot-k4": {"k": 4}}
 
 
 def shapes_for(name):
@@ -114,6 +119,65 @@ def shard_expr(acc, shard, nshards, params):
                family="%s[entries=%s,tile_mode=%d]" % (name, list(alphabet), tile_mode), deadline=deadline)
 
 
+
+def final_ranks(allv, v):
+    return [x for x in allv if x != v] + [v + ".1", v + ".0.1", v + ".0.0"]
+
+
+def case_twolevel(case):
+    """One variable tiled twice (v -> v.1, v.0 -> v.1, v.0.1, v.0.0), optionally with the operands re-ordered between
+    the two tilings so that the inner tile rank sits above its outer one when it is tiled again; every complete
+    loop order over the final ranks."""
+    name, vals, v, s1, s2, between, order, style = case
+    out, ins = EXPRS[name]
+    shapes = shapes_for(name)
+    nests = [nest([shapes[x] for x in r], flat) for r, flat in zip(ins, vals)]
+    exp = dense(out, ins, nests, shapes)
+    feats = {"expr:" + name, "style:" + style, "tiled_twice", "reordered_between_tilings" if between else "tilings_back_to_back"}
+    res = []
+    try:
+        tensors = make_inputs(ins, nests, shapes)
+        allv = index_vars(ins)
+        prep = [("split", v, s1)]
+        if between:
+            prep.append(("swizzle", [v + ".0"] + [x for x in allv if x != v] + [v + ".1"]))
+        prep.append(("split", v + ".0", s2))
+        k = Kernel(out, ins, list(order), {}, style, False, prep=prep)
+        k.run(tensors)
+        got = k.zcontent()
+        if got != exp:
+            res.append(("kernel", "result-differs-from-dense", feats, exp, got))
+    except Exception as ex:
+        res.append(("kernel", "exception:" + type(ex).__name__, feats | {"site:" + core.exc_site(ex)},
+                    exp, core.tb_tail(ex)))
+    if exp:
+        core.CUR.nt("kernel")
+    core.CUR.path("expr:" + name)
+    core.CUR.path("tiled-twice")
+    return res
+
+
+def shard_twolevel(acc, shard, nshards, params):
+    name, alphabet, v, deadline = params
+    out, ins = EXPRS[name]
+    shapes = shapes_for(name)
+    allv = index_vars(ins)
+    styles = ("two-finger", "leader-follower") if any(sum(1 for r in ins if x in r) > 1 for x in allv) else ("two-finger",)
+    orders = list(itertools.permutations(final_ranks(allv, v)))
+    sizes = range(1, shapes[v] + 1)
+
+    def gen():
+        for vals in itertools.product(*[list(all_values(r, shapes, alphabet)) for r in ins]):
+            for s1 in sizes:
+                for s2 in sizes:
+                    for between in (False, True):
+                        for order in orders:
+                            for style in styles:
+                                yield (name, vals, v, s1, s2, between, order, style)
+    core.drive(acc, "twolevel", case_twolevel, gen(), shard, nshards,
+               family="%s[%s tiled twice, entries=%s]" % (name, v, list(alphabet)), deadline=deadline)
+
+
 def case_template(case):
     """Two kernels of the same expression, their outputs derived from ONE empty template tensor by swizzling it to
     each loop order (a common idiom): both results equal the dense evaluation and the template stays empty."""
@@ -180,7 +244,7 @@ def shard_cancel(acc, shard, nshards, params):
                family="matmul[A in {-1,0,1}, B in {0,1}: cancelling partial sums]", deadline=params)
 
 
-CASES = {"kernel": case_kernel, "template": case_template}
+CASES = {"twolevel": case_twolevel, "kernel": case_kernel, "template": case_template}
 
 
 def run(ctx):
@@ -194,6 +258,7 @@ def run(ctx):
         plan.append(("matvec-m3", (-1, 0, 1), 0, (False,)))
         plan.append(("sum3", (0, 1), 2, (False,)))
         plan.append(("colsum-n3", (-1, 0, 1), 0, (False,)))
+        plan.append(("matvec-k3", (0, 1), 1, (False,)))
     else:
         small = ("dot", "elem", "rowsum", "sumall", "colsum", "outer")
         plan = [(n, (-1, 0, 1, 2), 2, (False, True)) for n in small]
@@ -201,7 +266,8 @@ def run(ctx):
                  ("elem3", (0, 1, 2), 1, (False, True)), ("matmul", (0, 1), 2, (False, True)),
                  ("matmul", (0, 1, 2), 1, (False,)), ("matmul-scale", (0, 1), 1, (False, True)),
                  ("matvec-m3", (-1, 0, 1, 2), 1, (False,)), ("colsum-n3", (-1, 0, 1, 2), 1, (False,)),
-                 ("sum3", (0, 1), 2, (False, True)), ("ttv", (0, 1), 2, (False,))]
+                 ("sum3", (0, 1), 2, (False, True)), ("ttv", (0, 1), 2, (False,)),
+                 ("matvec-k3", (0, 1, 2), 2, (False, True))]
     ctx.bounds = {"plan": [dict(expr=n, entries=list(a), tile_mode=t, inner_tile_loop_directly_below=list(p))
                            for n, a, t, p in plan],
                   "tile_mode": "0 = untiled, 1 = every tile size of every single variable, 2 = also every pair of variables"}
@@ -211,6 +277,15 @@ def run(ctx):
         ctx.shards(shard_expr, (n, a, t, p, time.time() + (60 if q else 900)))
     if not ctx.only or "cancel" in ctx.only:
         ctx.shards(shard_cancel, time.time() + (90 if q else 600))
+    two = [("dot-k4", (0, 1), "k"), ("rowsum-k3", (0, 1), "k")] if q else \
+        [("dot-k4", (0, 1, 2), "k"), ("rowsum-k3", (0, 1), "k"), ("rowsum-k3", (0, 1), "m"), ("matvec-k3", (0, 1), "k")]
+    for n, a, v in two:
+        if ctx.only and n not in ctx.only and "twolevel" not in ctx.only:
+            continue
+        ctx.shards(shard_twolevel, (n, a, v, time.time() + (90 if q else 900)))
+    ctx.bounds["tiled-twice"] = [dict(expr=n, entries=list(a), variable=v, note="every pair of tile sizes, with and without a "
+                                      "re-ordering (inner tile rank on top) between the two tilings, every loop order over the "
+                                      "final ranks") for n, a, v in two]
     ctx.bounds["cancel"] = "matmul 2x2x2 with A over {-1,0,1} and B over {0,1}, untiled, every loop order, both styles"
     ctx.bounds["division-tiling"] = ("tile_mode >= 1 also tiles through `tensor / parts` (parts = 1..extent) where the variable is the "
                                      "top rank of every operand holding it")
